@@ -449,7 +449,7 @@ class ArraySys(System):
             ref = payload.values('H', 1, self.trail, self.dtype)
             meta = {'a': 'recreated'}
         elif which == 'strided':       # a 2-D+ source that is neither C- nor F-contiguous
-            big = payload.values('H', 3, (4,) + tuple(self.trail), self.dtype)
+            big = payload.values('H', 2, (4,), self.dtype)      # fixed shape: the graph must stay finite
             src = big[:, ::2]
             ref = np.ascontiguousarray(src)
             meta = None
